@@ -235,6 +235,53 @@ func dischargeAll(e *Engine, units []*Unit, o runOpts, pool *SolverPool) []*Obli
 		}(ob)
 	}
 	wg.Wait()
+	// rescue round: an obligation that was not discharged only because a solver ran out of wall-clock time (a loaded
+	// machine, many checks in parallel) gets one more attempt with a third of the parallelism and three times the
+	// budget, per incoming path where there are several. Sound: the same queries, more time.
+	var again []*Obligation
+	for _, ob := range all {
+		if !ob.Vacuity && ob.Status != "unsat" && ob.Status != "" && !ob.Trivial {
+			again = append(again, ob)
+		}
+	}
+	if len(again) > 0 && len(again) <= 200 {
+		j := o.jobs / 3
+		if j < 1 {
+			j = 1
+		}
+		sem2 := make(chan struct{}, j)
+		for _, ob := range again {
+			wg.Add(1)
+			go func(ob *Obligation) {
+				defer wg.Done()
+				sem2 <- struct{}{}
+				defer func() { <-sem2 }()
+				if len(ob.Parts) > 1 {
+					ok := true
+					tt := 0.0
+					for _, pc := range ob.Parts {
+						ob2 := *ob
+						ob2.PC = And(ob.PC, pc)
+						r1 := pool.Solve(e.Query(&ob2, prelude), 3*o.timeout, false, false)
+						tt += r1.Time
+						if r1.Status != "unsat" {
+							ok = false
+							break
+						}
+					}
+					if ok {
+						ob.Status, ob.Solver, ob.Time = "unsat", "split/rescue", tt
+						return
+					}
+				}
+				r := pool.Solve(e.Query(ob, prelude), 3*o.timeout, false, false)
+				if r.Status == "unsat" {
+					ob.Status, ob.Solver, ob.Time = "unsat", r.Solver+"/rescue", r.Time
+				}
+			}(ob)
+		}
+		wg.Wait()
+	}
 	return all
 }
 
